@@ -91,7 +91,8 @@ def universe(r, size):
         for sh in [None, "maj", "min", "7", "maj7", "min7", "dim", "aug", "sus4",
                    "hdim7", "maj6", "9", "min9", "5", "1"]:
             for dl in [None, ["9"], ["*3"], ["*5"], ["b7"], ["#11"], ["*1"], ["7"],
-                       ["3", "5"], ["b3", "5"], ["*3", "4"], ["13"], ["b13"]]:
+                       ["3", "5"], ["b3", "5"], ["*3", "4"], ["13"], ["b13"], ["#9"],
+                       ["b10"], ["b9"], ["#5"], ["b6"], ["#9", "b7"], ["bb3"], ["10"]]:
                 if dl and any(d.startswith("*") for d in dl) and sh is None:
                     continue
                 for b in [None, "3", "b3", "5", "b7", "7", "2", "9", "#4"]:
